@@ -596,7 +596,20 @@ class Resolver:
         if st.sncat == "rows":
             # (several candidate tables only if the table reference itself is ambiguous by rule)
             acc: List[str] = []
-            for tm in self.tables_of_key(st, ctx):
+            tms = self.tables_of_key(st, ctx)
+            tref = (st.tk or {}).get("table")
+            if not tms and tref is not None and tref["f"] == "sn":
+                imp = self.imported_names(ctx, tref["sn"], "tables")
+                if len(imp) == 1:  # table only visible through IMPORT-REF: unclear, see below
+                    e = Expect([], raise_ok=True, note="snref-to-imported")
+                    t = self.table_obj.get(imp[0])
+                    c_, l_, _ = imp[0].split("/", 2)
+                    rows = [marker(c_, l_, rw["id"]) for rw in (t or {"rows": []})["rows"]
+                            if rw["name"] == name]
+                    if len(rows) == 1:
+                        e.accept = set(rows)
+                    return e
+            for tm in tms:
                 t = self.table_obj.get(tm)
                 if t is None:
                     continue
@@ -809,7 +822,10 @@ class Builder:
         self.r = r
         self.tp = tp
         self.unclear = unclear
-        self.shadow = {t["name"]: (bool(t["imports"]) and r.random() < 0.25) for t in tp.layers}
+        # importers that also define the "IMP" IDs / names locally (local definitions win); leaf
+        # layers only, so that no question of inheritance priority arises (that is C09)
+        self.shadow = {t["name"]: (bool(t["imports"]) and t["kind"] == "ECU-VARIANT" and
+                                   r.random() < 0.4) for t in tp.layers}
 
     # -- choosing references ----------------------------------------------
     def id_ref(self, t: J, cat: str, variants: Optional[Sequence[str]] = None) -> J:
@@ -1053,6 +1069,10 @@ def inject(r: random.Random, model: J, tp: Topo, fclass: str) -> Optional[J]:
                 continue
             if st.kind == "TK-ROW" and st.tk and st.tk.get("table") is not None:
                 continue
+            if st.kind == "TK-TABLE" and st.owner and st.owner.get("row") is not None:
+                continue  # (the row reference would become unresolvable as well)
+            if st.kind == "TK-ROW" and variant == "docref-to-importer":
+                continue  # (two sites share this reference)
             i = "IMP." + r.choice(IMP_CATS[cats[st.kind]])
             st.ref["id"] = i
             st.ref["dr"] = ["LAYER", a["name"]] if variant == "docref-to-importer" else None
